@@ -431,7 +431,7 @@ def alternatives(t, limit=64):
 def expr_term(ctx, fi, node, env=None):
     """term of a single expression node of `fi`, its free names left as ('name', id) leaves (or taken from `env`)"""
     from .symeval import Evaluator, State
-    ev = Evaluator(ctx.P, fi, mode='join')
+    ev = Evaluator(ctx.P, fi, mode='join', inline=default_inline(ctx))
     st = State(env=dict(env or {}))
     res = ev.ev(node, st)
     return res[0][0]
